@@ -79,14 +79,20 @@ def build_config(spec: dict[str, Any]) -> dict[str, Any]:
     return cfg
 
 
+_SALT = [0]  # every run disturbs NumPy's global generator differently (during the run, from inside the evaluator)
+
+
 def make_evaluator(spec: dict[str, Any]) -> AffineEvaluator:
     r_n, k_n, n = len(spec["weights"]), spec["K"], spec["n"]
     a = np.array(spec["slopes"], dtype=np.float64).reshape(r_n, k_n, n)
     ev = AffineEvaluator(a, np.zeros((r_n, k_n)), quad=1.0)
+    _SALT[0] += 1
+    salt = _SALT[0]
 
     def hook(call: int, variables: np.ndarray, context: Any) -> None:  # noqa: ANN401, ARG001
-        np.random.seed(call + 17)  # noqa: NPY002
-        np.random.random(3)  # noqa: NPY002
+        if (call + salt) % 3:
+            np.random.seed(call + 17 + 1000 * salt)  # noqa: NPY002
+        np.random.random(1 + salt % 4)  # noqa: NPY002
 
     ev.hook = hook
     return ev
